@@ -1097,9 +1097,13 @@ def oracle_tree(case, real):
             pool = pool_classes()
             kvs = dict(kv.split("=", 1) for kv in op[4:].split("|"))
             after = parse_tree(out[3:].split(" ")[0])
+            parsed = {k: parse_tree(vs) for k, vs in kvs.items()}
             for k, vs in kvs.items():
-                newv = parse_tree(vs)
+                newv = parsed[k]
                 if newv[0] != "e":
+                    continue
+                # a whole component list or an enclosing component set in the same call is another situation
+                if any(k3 != k and (parsed[k3][0] == "n" or k.startswith(k3 + "__")) for k3 in kvs):
                     continue
                 for k2, vs2 in kvs.items():
                     if not (k2.startswith(k + "__") and "__" not in k2[len(k) + 2:]):
@@ -1121,7 +1125,7 @@ def oracle_tree(case, real):
                         continue
                     p2 = k2[len(k) + 2:]
                     got_id = cur[1] if cur[0] == "e" else None
-                    got_val = cur[3].get(p2) if cur[0] == "e" else None
+                    got_val = _node_child(cur, p2, pool) if cur[0] == "e" else None
                     want = ("a%d" % v2[1]) if v2[0] == "a" else ("e%d" % v2[1] if v2[0] == "e" else None)
                     gv = None if got_val is None else ("a%d" % got_val[1] if got_val[0] == "a" else "e%s" % got_val[1] if got_val[0] == "e" else "n")
                     if got_id != newv[1]:
